@@ -50,8 +50,20 @@ def run(ctx):
         if m % 90 == 1:
             ctx.sample(dict(token=r["tok"], position=r["pos"], src=r["src"], direct=r.get("direct")))
     ctx.cov["constant_cases"] = m
+    # error source positions after decoding: the stack-trace programs of UgoTrace, decoded configurations only
+    tout = ctx.path("tr.ndjson")
+    ctx.tlc("UgoTrace", "UgoTrace_quick", env=dict(OUT=tout), timeout=600, name="positions")
+    tres = ctx.path("tr-res.ndjson")
+    ctx.vh("c16", tout, tres)
+    for r in vlib.read_ndjson(tres):
+        ctx.evaluations += 2
+        ctx.traces_validated += 1
+        bad = {k: v for k, v in r["got"].items() if "+rt" in k and v != r["want"] and r["got"].get(k.replace("+rt", "")) == r["want"]}
+        if bad:
+            ctx.violation("pos:" + vlib.sha(json.dumps(r["id"], sort_keys=True)), "%s: positions after encode/decode %s, direct run %s\n%s" % (json.dumps(r["id"]), json.dumps(bad)[:300], r["want"], r["src"]),
+                          dict(id=r["id"], src=r["src"], want=r["want"], got=bad))
     ctx.exhaustive = True
     ctx.assumptions += ["behavioural equivalence is judged on outcome, log and globals (sem corpus) and on bit-exact returned values (constants)",
-                        "error source positions after a round trip are covered by C16's +rt configurations"]
+                        "error source positions after a round trip: the UgoTrace programs are replayed here too and a difference between the decoded and the direct run is charged to C04"]
 
 replay = semcommon.replay_sem
